@@ -86,11 +86,12 @@ type Result struct {
 }
 
 const (
-	stepWait  = 1500 * time.Millisecond // a scripted boundary event must show up within this (else: unsteered)
-	hangWait  = 12 * time.Second // a call that has everything it needs must return within this
-	leakWait  = 6 * time.Second
-	postCall  = 6 // id of the call started after transport Close ("later calls fail immediately")
-	promptMax = 2 * time.Second
+	stepWait    = 1500 * time.Millisecond // a scripted boundary event must show up within this (else: unsteered)
+	hangWait    = 12 * time.Second        // a call that has everything it needs must return within this
+	leakWait    = 6 * time.Second
+	patientWait = 6 * time.Second // a woken call (cancel / Close) must return within this without help
+	postCall    = 6               // id of the call started after transport Close ("later calls fail immediately")
+	promptMax   = 2 * time.Second
 )
 
 // ---------------------------------------------------------------------------
@@ -168,6 +169,8 @@ type call struct {
 	cancel  context.CancelFunc
 	done    chan struct{}
 	startAt time.Time
+
+	cancelled bool // (controller goroutine only)
 }
 
 type calls struct {
